@@ -6,11 +6,13 @@ CONSTANTS MaxLen, MaxMtu, BigMtus, Tier
 Small == { [fam |-> "C16", kind |-> k, len |-> n, mtu |-> m, salt |-> (n + m) % 17, isnil |-> FALSE, big |-> FALSE,
             class |-> IF n = 0 THEN "empty" ELSE IF n % m = 0 THEN "exact_multiple" ELSE IF n < m THEN "single" ELSE "remainder"]
            : k \in {"g711", "g722"}, n \in 0..MaxLen, m \in 1..MaxMtu }
-BigLens(m) == { k * m + d : k \in {1, 2, 3}, d \in {0, 1} } \cup { k * m - 1 : k \in {1, 2, 3} } \cup {10000}
+BigLens(m) == { k * m + d : k \in {1, 2, 3}, d \in {0, 1} } \cup { k * m - 1 : k \in {1, 2, 3} } \cup {10000, 65535, 65536, 65537, 70000, 140001}
 Big == { [fam |-> "C16", kind |-> k, len |-> n, mtu |-> m, salt |-> 5, isnil |-> FALSE, big |-> TRUE,
             class |-> IF n % m = 0 THEN "big_exact_multiple" ELSE "big_remainder"]
            : k \in {"g711", "g722"}, m \in BigMtus, n \in UNION { BigLens(mm) : mm \in BigMtus } } 
 BigF == { c \in Big : c.len \in BigLens(c.mtu) /\ c.len < 200000 }
+        \cup { [fam |-> "C16", kind |-> k, len |-> n, mtu |-> m, salt |-> 7, isnil |-> FALSE, big |-> TRUE, class |-> "big_over_64k"]
+               : k \in {"g711", "g722"}, n \in {65537, 70000, 140001}, m \in {257, 1000, 65535} }
 Nil == { [fam |-> "C16", kind |-> k, len |-> 0, mtu |-> m, salt |-> 0, isnil |-> TRUE, big |-> FALSE, class |-> "nil"]
            : k \in {"g711", "g722", "opus", "opusdepack"}, m \in {1, 5, 1200} }
 Opus == { [fam |-> "C16", kind |-> k, len |-> n, mtu |-> m, salt |-> n % 13, isnil |-> FALSE, big |-> FALSE,
